@@ -15,3 +15,15 @@ OBLIGATIONS += [
         bounds_q="all inputs up to 10 bytes, all cut points"),
 ]
 OBLIGATIONS += reuse("C01", r"lz_window_")   # what the match finder sees does not depend on input arrival
+OBLIGATIONS += [
+    Obligation(name="lzma2_lzma_chunk_slicing", src="lzma2slice.c", func="harness_lzma_chunk_slicing", unwind=6,
+        units=[S + "common/common.c", S + "lzma/lzma_decoder.c"], defs=["NMAX=8"], flags=["--object-bits", "10"],
+        unwindset=[("nd_bytes", "", 10)],
+        fp_restrict=["lzma2_decode.function_pointer_call.4/stub_code"],
+        functions=["lzma2_decode"],
+        stubs=["LZMA1 payload decoder: the chunk's LZMA data needs exactly `want` (arbitrary) bytes; consumes what it is offered up to that, then reports end of chunk"],
+        desc="LZMA2 decoder, LZMA-chunk step (SEQ_LZMA) from an arbitrary Compressed Size: one call with all input vs the same input cut anywhere into two calls -- same final status (DATA_ERROR exactly when the LZMA data is longer or shorter than the Compressed Size field), same input consumed, same state",
+        bounds_q="LZMA data of <= 8 bytes, Compressed Size 1..65536, every cut point; input does not extend beyond the chunk's LZMA data"),
+]
+OBLIGATIONS += reuse("C03", r"lzma2_chunk_layer")      # whole LZMA2 chunk layer: every input, every slicing, vs the chunk grammar
+OBLIGATIONS += reuse("C05", r"block_body_rules|index_hash_exact")   # Block body / Index verification: every slicing
